@@ -2,6 +2,7 @@ import RbV.Basic.Codec
 import RbV.Basic.AlignCodec
 import RbV.Ref.Gotoh
 import RbV.Model.PairwiseCustom
+import RbV.Model.PairwiseFill
 /-! Driver for property C01: pairwise alignment optimal, path achieves score, history independent.
 
 `c01 const => min:<MIN_SCORE>`
@@ -47,7 +48,20 @@ def checkCall (sc : Sc) (cl : Clip) (idx : Nat) (call : String × List Nat × Li
               (fun r => if filt then Model.Pairwise.filterClips r else r) with
             | some r => if r == o then "model=impl" else if r.score == o.score then "drift-path" else "drift-score"
             | none => "drift-model-no-termination"
-          .ok ([mtag] ++ (if !x.isEmpty && !y.isEmpty && !core.isEmpty then ["nt"] else [])
+          -- functional mirror of the matrix fill (`Model/PairwiseFill.lean`, the model of theorem `fill_score_eq_opt`),
+          -- evaluated on the same call: its score against the implementation's (drift, never a violation)
+          let fsc := (Model.PairwiseFill.fill sc cl' x y).score
+          let ftag := if fsc == o.score then "fill-model=impl" else "drift-fill-score"
+          -- … against the imperative model's score, and whether the call lies inside the hypotheses of the theorem
+          let itag := if fsc == (Model.Pairwise.fill sc cl' x.toArray y.toArray).score then "fill-model=imp-model"
+            else "drift-fill-imp"
+          let htag := if Model.PairwiseFill.thmHyp sc cl' x y then "fill-thm-hyp" else "outside-fill-thm-hyp"
+          -- the functional model's whole `Alignment` (its traceback over its own traceback cells, `Lx`, `Ly`)
+          let ptag := match (Model.PairwiseFill.custom sc cl' x y).map
+              (fun r => if filt then Model.Pairwise.filterClips r else r) with
+            | some r => if r == o then "fill-path=impl" else "drift-fill-path"
+            | none => "drift-fill-no-termination"
+          .ok ([mtag, ftag, itag, htag, ptag] ++ (if !x.isEmpty && !y.isEmpty && !core.isEmpty then ["nt"] else [])
             ++ [mode]
             ++ (if x.isEmpty || y.isEmpty then ["emptyseq"] else [])
             ++ (if hasClip o.ops then ["clipops"] else [])
